@@ -105,15 +105,15 @@ macro_rules! c07_lockfree_class {
     };
 }
 // a freed block of one request size re-issued for another size of the same size class
-c07_lockfree_class!(c07_lockfree_class144, quick, 66, 129, 144, 129, 144, 1, 16);
-c07_lockfree_class!(c07_lockfree_class32, quick, 66, 25, 32, 25, 32, 1, 8);
-c07_lockfree_class!(c07_lockfree_class_cross, quick, 66, 1, 24, 9, 40, 1, 24);
+c07_lockfree_class!(c07_lockfree_class144, thorough, 66, 129, 144, 129, 144, 1, 16);
+c07_lockfree_class!(c07_lockfree_class32, thorough, 66, 25, 32, 25, 32, 1, 8);
+c07_lockfree_class!(c07_lockfree_class_cross, thorough, 66, 1, 24, 9, 40, 1, 24);
 c07_lockfree_recycle!(c07_lockfree_recycle_s8192, thorough, 66, 8192);
 
 zv_harness! {
     name: c07_lockfree_capacity,
     prop: "C07",
-    tier: quick,
+    tier: thorough,
     unwind: 66,
     stubs: [alloc::fmt::format => crate::common::stubs::fmt_format],
     targets: "memory::lockfree_pool::LockFreeMemoryPool::{allocate, allocate_new_block, deallocate, ptr_to_offset}",
@@ -241,12 +241,16 @@ c07_mempool!(c07_mempool_chunk64, thorough, 6, 64);
 use zipora::memory::fixed_capacity_pool::{FixedCapacityMemoryPool, FixedCapacityPoolConfig};
 
 fn fixedcap_hist() {
-    let cfg = FixedCapacityPoolConfig { max_block_size: 32, total_blocks: 2, alignment: 8, enable_stats: false, eager_allocation: true, secure_clear: false };
+    fixedcap_hist_cfg(32)
+}
+
+fn fixedcap_hist_cfg(max_block: usize) {
+    let cfg = FixedCapacityPoolConfig { max_block_size: max_block, total_blocks: 2, alignment: 8, enable_stats: false, eager_allocation: true, secure_clear: false };
     let pool = match FixedCapacityMemoryPool::new(cfg) { Ok(p) => p, Err(e) => { forget(e); return; } };
     let s1: usize = vany();
     let s2: usize = vany();
     let s3: usize = vany();
-    assume(s1 >= 1 && s1 <= 32 && s2 >= 1 && s2 <= 32 && s3 >= 1 && s3 <= 40);
+    assume(s1 >= 1 && s1 <= max_block && s2 >= 1 && s2 <= max_block && s3 >= 1 && s3 <= max_block + 8);
     let a = pool.allocate(s1);
     let b = pool.allocate(s2);
     if let (Ok(x), Ok(y)) = (&a, &b) {
@@ -258,7 +262,7 @@ fn fixedcap_hist() {
         assert!((x.as_ptr() as usize) % 8 == 0 && (y.as_ptr() as usize) % 8 == 0, "block not aligned as configured");
     }
     let c = pool.allocate(s3);
-    if s3 > 32 {
+    if s3 > max_block {
         assert!(c.is_err(), "a request above max_block_size was served");
     }
     if let (Ok(x), Ok(z)) = (&a, &c) {
@@ -275,11 +279,44 @@ fn fixedcap_hist() {
 zv_harness! {
     name: c07_fixedcap_hist,
     prop: "C07",
-    tier: quick,
+    tier: thorough,
     unwind: 12,
     stubs: [alloc::fmt::format => crate::common::stubs::fmt_format],
     targets: "memory::fixed_capacity_pool::FixedCapacityMemoryPool::{new, allocate, generate_size_classes, find_size_class, allocate_from_free_list}, FixedCapacityAllocation::{as_ptr,size}",
     bounds: "max_block_size 32, total_blocks 2, alignment 8, eager allocation; three allocate calls with symbolic sizes 1..=32 (third up to 40)",
     oracle: "served blocks are at least the requested size, pairwise disjoint, inside the pool's memory (CBMC pointer checks on first/last byte), keep their contents, are aligned as configured; a request above max_block_size is refused with Err",
     body: { fixedcap_hist() }
+}
+
+zv_harness! {
+    name: c07_fixedcap_hist_unaligned_max,
+    prop: "C07",
+    tier: thorough,
+    unwind: 12,
+    stubs: [alloc::fmt::format => crate::common::stubs::fmt_format],
+    targets: "memory::fixed_capacity_pool::FixedCapacityMemoryPool::{new, allocate, generate_size_classes, find_size_class, allocate_from_free_list}, FixedCapacityAllocation::{as_ptr,size}",
+    bounds: "max_block_size 20 (NOT a multiple of the 8-byte alignment), total_blocks 2, eager allocation; three allocate calls with symbolic sizes 1..=20 (third up to 28)",
+    oracle: "served blocks are at least the requested size, pairwise disjoint over their reported size(), inside the pool's memory (CBMC pointer checks on first/last byte), keep their contents, are aligned as configured; a request above max_block_size is refused",
+    body: { fixedcap_hist_cfg(20) }
+}
+
+zv_harness! {
+    name: c07_lockfree_huge_request,
+    prop: "C07",
+    tier: quick,
+    unwind: 66,
+    stubs: [alloc::fmt::format => crate::common::stubs::fmt_format],
+    targets: "memory::lockfree_pool::LockFreeMemoryPool::{allocate, allocate_from_skip_list, allocate_new_block, align_size}",
+    bounds: "256-byte arena; ONE allocate call whose size ranges over every usize value above the fast-bin threshold (8192), in particular sizes whose low 32 bits are small",
+    oracle: "the request is refused with Err (nothing of that size fits a 256-byte arena); no arithmetic overflow",
+    body: {
+        let pool = match LockFreeMemoryPool::new(lf_config(256)) { Ok(p) => p, Err(e) => { forget(e); return; } };
+        let s: usize = vany();
+        assume(s > 8192);
+        let r = pool.allocate(s);
+        assert!(r.is_err(), "a request far beyond the arena was served");
+        zcover!(s > (1usize << 32) && (s & 0xFFFF_FFFF) <= 64, "size with small low 32 bits");
+        forget(r);
+        forget(pool);
+    }
 }
